@@ -22,6 +22,7 @@ type robj struct {
 	val     uint64
 	status  Status
 	status2 Status
+	set     StatusSet // used instead of status when STATUSSET=1
 }
 
 func (o *robj) TableHeader() []string { return nil }
@@ -203,7 +204,12 @@ func (h *c14harness) onSuccess(id byte) {
 
 func (h *c14harness) userUpsert(id byte, val uint64) {
 	w := h.db.WriteTxn(h.table)
-	h.table.Insert(w, &robj{id: id, val: val, status: StatusPending(), status2: StatusPending()})
+	n := &robj{id: id, val: val, status: StatusPending(), status2: StatusPending(), set: NewStatusSet()}
+	if old, _, ok := h.table.Get(w, robjIndex.Query(id)); ok && vnd.Param("STATUSSET", 0) == 1 {
+		// the documented way to update an object that carries a StatusSet
+		n.set = old.set.Pending()
+	}
+	h.table.Insert(w, n)
 	w.Commit()
 	k := h.km(id)
 	if h.inAttempt == int(id) {
@@ -303,10 +309,23 @@ func VerifC14Rounds() {
 	h.ops = ops
 	cfg := config[*robj]{
 		Table:           table,
-		GetObjectStatus: func(o *robj) Status { return o.status },
-		SetObjectStatus: func(o *robj, s Status) *robj { o.status = s; return o },
-		CloneObject:     func(o *robj) *robj { c := *o; return &c },
-		Operations:      ops,
+		GetObjectStatus: func(o *robj) Status {
+			if vnd.Param("STATUSSET", 0) == 1 {
+				return o.set.Get("verif")
+			}
+			return o.status
+		},
+		SetObjectStatus: func(o *robj, s Status) *robj {
+			if vnd.Param("STATUSSET", 0) == 1 {
+				o.set = o.set.Set("verif", s)
+				o.status = s
+				return o
+			}
+			o.status = s
+			return o
+		},
+		CloneObject: func(o *robj) *robj { c := *o; return &c },
+		Operations:  ops,
 		options: options{
 			Metrics:                 nopRMetrics{},
 			RetryBackoffMinDuration: time.Duration(minB),
@@ -362,6 +381,9 @@ func VerifC14Rounds() {
 		if werr == nil {
 			pa(h.maxAttemptedRev >= 0 && lastRev >= 0, "C16.wait")
 		}
+		// what WaitUntilReconciled reports is the low-watermark of this round
+		_, lwReported, _ := progress.wait(cctx, 0)
+		pa(lwReported == lw, "C16.wait-reports-stale-low-watermark")
 	}
 
 	writes := W
